@@ -37,7 +37,7 @@ func ruleC05R3(c *core.Ctx, rule string, allowed map[string]map[string]string) {
 						what = "select"
 					}
 				case ssa.CallInstruction:
-					if cal := in.Common().StaticCallee(); cal != nil {
+					if cal := core.Callee(in.Common()); cal != nil {
 						full := cal.String()
 						if clockLike[full] || strings.HasPrefix(full, "math/rand.") || strings.HasPrefix(full, "math/rand/v2.") || strings.HasPrefix(full, "crypto/rand.") {
 							what = full
@@ -54,6 +54,9 @@ func ruleC05R3(c *core.Ctx, rule string, allowed map[string]map[string]string) {
 				}
 				if r, ok := allowed[top][what]; ok {
 					c.Discharge(rule, name, what, c.P.Pos(in.Pos()), "allowed: "+r)
+				} else if v, isVal := in.(ssa.Value); isVal && what == "time.Now" && clockOnlyToMetadata(c.P, fn, v, 0) {
+					// the same two destinations reached through a seam (a clock interface, a function variable)
+					c.Discharge(rule, name, what, c.P.Pos(in.Pos()), "allowed: the value only ever becomes cli.App.Compiled (build metadata) or the default of GlobalConfig.Now, which --today and the configuration file override")
 				} else {
 					c.Violate(rule, name, what, c.P.Pos(in.Pos()), fmt.Sprintf("%s in %s: a source of run-to-run variation that is not in the allowed table", what, name), nil)
 				}
@@ -237,7 +240,7 @@ func constDerived(v ssa.Value, depth int) bool {
 		}
 		return false
 	case *ssa.Call:
-		if x.Call.IsInvoke() || x.Call.StaticCallee() == nil {
+		if x.Call.IsInvoke() || core.Callee(&x.Call) == nil {
 			return false
 		}
 		if mc, ok := x.Call.Value.(*ssa.MakeClosure); ok && !constDerived(mc, depth+1) {
@@ -251,4 +254,60 @@ func constDerived(v ssa.Value, depth int) bool {
 		return true
 	}
 	return false
+}
+
+// clockOnlyToMetadata: every use of the clock value v (in fn, and of fn's result in its callers) ends in a store
+// into a field named Compiled or into GlobalConfig's Now — the two destinations of the allowed table.
+func clockOnlyToMetadata(p *core.Program, fn *ssa.Function, v ssa.Value, depth int) bool {
+	if depth > 5 || v.Referrers() == nil {
+		return false
+	}
+	uses := 0
+	for _, r := range *v.Referrers() {
+		switch t := r.(type) {
+		case *ssa.DebugRef:
+		case *ssa.Store:
+			if t.Val != v {
+				return false
+			}
+			fa, ok := t.Addr.(*ssa.FieldAddr)
+			if !ok {
+				return false
+			}
+			switch fieldName(fa.X.Type(), fa.Field) {
+			case "Compiled":
+			case "Now":
+				if !strings.HasSuffix(fa.X.Type().String(), "options.GlobalConfig") {
+					return false
+				}
+			default:
+				return false
+			}
+			uses++
+		case *ssa.MakeInterface, *ssa.ChangeType, *ssa.Phi, *ssa.Extract:
+			if !clockOnlyToMetadata(p, fn, t.(ssa.Value), depth+1) {
+				return false
+			}
+			uses++
+		case *ssa.Return:
+			// the callers of fn, through whatever they call it
+			n := p.CallGraph().Nodes[fn]
+			if n == nil || len(n.In) == 0 {
+				return false
+			}
+			for _, e := range n.In {
+				if cn := p.CallGraph().Nodes[e.Caller.Func]; e.Caller.Func.Synthetic != "" && (cn == nil || len(cn.In) == 0) {
+					continue // a wrapper nobody calls
+				}
+				cv, ok := e.Site.(ssa.Value)
+				if !ok || !clockOnlyToMetadata(p, e.Caller.Func, cv, depth+1) {
+					return false
+				}
+			}
+			uses++
+		default:
+			return false
+		}
+	}
+	return uses > 0
 }
